@@ -713,6 +713,8 @@ def check_c14(sim, res):
     for i, t in enumerate(sim.tasks):
         if t.get("comp") is not None:
             comp_tasks[t["comp"]].append(i)
+    for i, c in enumerate(spec["comps"]):
+        comp_tasks[i].extend(c.get("extra_tasks", ()))
     mixed = False
 
     def rel(cstate, tstates, where, cid_, sigp=""):
@@ -760,3 +762,26 @@ def check_c14(sim, res):
     res.cls("nested", any(c.get("parent") is not None for c in spec["comps"]))
     res.nontrivial = mixed
     res.stats["steps"] += sim.N
+
+
+def check_c14_logs(project, res, tag):
+    """C14 relation on the logs of an arbitrary project (used for resumed and JSON-reloaded runs)."""
+    n = len(project.cost_list)
+    for comp in project.product.component_list:
+        log = [int(x) for x in comp.state_record_list]
+        if len(log) != n:
+            res.fail("C14.log_length", "%s: component %s state log has %d entries, %d steps" % (tag, comp.ID, len(log), n), sig=tag)
+            continue
+        for k in range(n):
+            ts = [int(t.state_record_list[k]) for t in comp.targeted_task_list]
+            allfin = all(x == S.FINISHED for x in ts)
+            if (log[k] == S.FINISHED) != allfin:
+                res.fail("C14.finished_iff", "%s: component %s logged %d at index %d, task states %s" % (tag, comp.ID, log[k], k, ts), sig=tag)
+            if any(x == S.WORKING for x in ts) and log[k] != S.WORKING:
+                res.fail("C14.working", "%s: component %s logged %d at index %d although a task is WORKING %s" % (tag, comp.ID, log[k], k, ts), sig=tag)
+            if any(x in (S.READY, S.WORKING) for x in ts) and log[k] == S.NONE:
+                res.fail("C14.none_with_active_task", "%s: component %s logged NONE at index %d, task states %s" % (tag, comp.ID, k, ts), sig=tag)
+            if k > 0 and log[k - 1] != S.NONE and log[k] == S.NONE:
+                res.fail("C14.back_to_none", "%s: component %s log returns to NONE at index %d" % (tag, comp.ID, k), sig=tag)
+            if k > 0 and log[k - 1] == S.FINISHED and log[k] != S.FINISHED:
+                res.fail("C14.left_finished", "%s: component %s log leaves FINISHED at index %d" % (tag, comp.ID, k), sig=tag)
